@@ -206,7 +206,7 @@ def u_init_uq(I):
                        z3.Implies(z3.And(0 <= b, b < m), v2.fields['at'](b) == z3.If(present, Count(Basis(b)), z3.RealVal(0)))))
         ps.append(('RMSE correlation and dof taken from the library', z3.BoolVal(f.get('RMSE') is rmse_corr and f.get('dof') is uq['dof'])))
         return ps
-    check_outcome(I, out, raises={'AssertionError': z3.And(C01.AnyRange(n), C01.CMax(n) < C01.CMin(n))}, returns=posts)
+    check_outcome(I, out, raises={'*': z3.And(C01.AnyRange(n), C01.CMax(n) < C01.CMin(n))}, returns=posts)
     return {'inputs': {}}
 
 
